@@ -202,7 +202,7 @@ fn check_e2e(c: &E2eCase) -> Verdict {
 pub fn run(ctx: &Ctx) {
     ctx.set_rule("through the hook accessors (CompressedUsedLeafsIndexes::to, ReferenceImplPrivateKey::increment, HssPrivateKey::get_lifetime on a tree-less skeleton key): height tuples of length 1..8 over {2,5,10,15,20,25} x 48 counter slots (0, 1, last-1, last, last+1, u64::MAX, every radix boundary -1/0/+1 and multiples, pseudo-random) compared with a u128 mixed-radix model; total >= 64: no panic, digit rule on the 64-bit counter, successor c+1, 1 <= lifetime <= true remaining; end to end: q fields and callback successor of released signatures incl. 6 x H10 and 7 x H10 keys. Non-trivial = every case (the suite has no mixed or tall shape); distinct by serialized case.");
     ctx.assume("the hook builds its skeleton key with the same per-level used_leafs_index / parameters as HssPrivateKey::from (end-to-end sub-check cross-validates on affordable shapes)");
-    let maxlen = ctx.tier.pick(4usize, 8usize);
+    let maxlen = ctx.tier.pick(6usize, 7usize);
     let tuples = tuple_count(6, maxlen);
     let salt = ctx.seed;
     ctx.enumerate("arith_all_tuples", tuples * SLOTS, true, |i| {
@@ -210,7 +210,7 @@ pub fn run(ctx: &Ctx) {
         let (counter, cc) = slot_counter(&t, i % SLOTS, salt ^ (i / SLOTS));
         ArithCase { heights: t, counter, counter_class: cc.to_string() }
     }, check_arith);
-    if ctx.quick() {
+    {
         // longer tuples: random sample
         ctx.random(
             "arith_long_tuples",
@@ -223,7 +223,7 @@ pub fn run(ctx: &Ctx) {
                     })
                     .boxed()
             },
-            60_000,
+            ctx.tier.pick(300_000u32, 3_000_000u32),
             Opts::default(),
             check_arith,
         );
